@@ -248,7 +248,10 @@ FHost(lazy) == UNION { Chains(<<Ord("a"), h, Ord("b")>>) \cup Chains(<<h, h>>) \
                      <<lay(<<med(<<sup(<<h>>), h>>), h>>), h>>,
                      <<med(<<sup(<<Ord("a")>>), h>>)>>,
                      <<med(<<sup(<<h>>), sup(<<h>>), h>>), med(<<h>>)>>,
-                     <<lay(<<med(<<h>>), sup(<<h, Ord("c")>>), h>>), Ord("d"), h>> })
+                     <<lay(<<med(<<h>>), sup(<<h, Ord("c")>>), h>>), Ord("d"), h>>,
+                     (* output that is not ASCII (not BMP) in FRONT of an all-ASCII at-rule holding a :host rule: the head of the
+                        at-rule is replayed from the output written so far, wherever it begins *)
+                     <<Ord("~E~"), med(<<Ord("c"), h>>)>>, <<Ord("~M~~Z~"), lay(<<sup(<<h>>), h>>)>> })
 HostOpts == {[NoOpt EXCEPT !.host = hs, !.prefix = p, !.hostIs = hi] : hs \in BOOLEAN, p \in {"none", "p"}, hi \in {"none", "IS"}}
 
 -----------------------------------------------------------------------------
